@@ -457,12 +457,8 @@ theorem ui_emulator_runs_on_current_code (info : Info) {bs : List BytesMem.Block
     exact ⟨hc, hv, hg⟩
   | mem hmem _ _ => obtain ⟨m, v, hm'⟩ := hmem; rw [hm] at hm'; cases hm'
 
-/-- the `info` the real program shows: the disassembly text of C25 (`Entry.text`, the model of
-`instruction.String()`) and the bytes of the parsed instruction with that original address -/
-def infoOfParsed (is : List (Parse.Ins (Riscv.Entry × Riscv.Ins))) : Info := fun a =>
-  match is.find? fun i => i.addr == a with
-  | some i => (i.details.1.text i.details.2, i.bytes)
-  | none => ("", [])
+-- `infoOfParsed is` (the `info` the real program shows: the disassembly text of C25 and the parser's bytes):
+-- `Model/Compose.lean`
 
 /-- … every instruction it describes has four bytes: the listing's modelling assumption "instructions have at
 least one byte" (`byteStr`) is a theorem of C21 -/
